@@ -381,6 +381,9 @@ func BuildWorld(rep Rep, w *World) *Sys {
 			}
 		}
 	}
+	if last := w.Hist[len(w.Hist)-1]; c.Rev(NS, s.RevOf[last]) == nil {
+		rep.Violate("build/update-revision-missing", "after reconciling template history %v the revision of the current template (%q) is not stored\n%s", w.Hist, s.RevOf[last], c.Dump())
+	}
 	c.UpdateSet(NS, s.Name, func(x *asv1.StatefulSet) { applySpec(x, w.Spec) })
 	if w.CurRev >= 0 && w.CurRev < len(w.Hist) {
 		st := c.Set(NS, s.Name)
